@@ -45,6 +45,10 @@ func toParams(ps map[string]m.Term) parser.ParametersMap {
 	}
 	out := parser.ParametersMap{}
 	for k, v := range ps {
+		if k == "pnil" {
+			out[k] = nil // a key that is present but bound to nothing
+			continue
+		}
 		out[k] = bridge.ToTerm(v)
 	}
 	return out
@@ -477,7 +481,8 @@ func mustErrorText(t *rapid.T) (gen.TextCase, string) {
 	why := rapid.SampledFrom([]string{"unbound-parameter-in-predicate", "unbound-parameter-in-expression", "date-without-zone-in-predicate",
 		"date-without-zone-in-expression", "date-month-13", "bytes-odd-digits", "bytes-non-hex-tail", "variable-in-set-in-predicate",
 		"variable-in-set-in-expression", "chained-comparison", "chained-equality", "bytes-odd-digits-in-expression",
-		"variable-in-set-through-parameter-in-predicate", "variable-in-set-through-parameter-in-expression"}).Draw(t, "why")
+		"variable-in-set-through-parameter-in-predicate", "variable-in-set-through-parameter-in-expression",
+		"parameter-bound-to-nil-in-predicate", "parameter-bound-to-nil-in-expression"}).Draw(t, "why")
 	bad := map[string]string{
 		"unbound-parameter-in-predicate":  `{missing}`,
 		"unbound-parameter-in-expression": `{missing}`,
@@ -494,6 +499,9 @@ func mustErrorText(t *rapid.T) (gen.TextCase, string) {
 		// the parameter is bound, but to a variable: after substitution the set holds a variable
 		"variable-in-set-through-parameter-in-predicate":  `[1, {pvar}]`,
 		"variable-in-set-through-parameter-in-expression": `[{pvar}]`,
+		// the key is in the map, its value is nil: as unbound as a missing key
+		"parameter-bound-to-nil-in-predicate":  `{pnil}`,
+		"parameter-bound-to-nil-in-expression": `{pnil}`,
 	}[why]
 	inExpr := strings.Contains(why, "expression") || strings.HasPrefix(why, "chained")
 	entry := rapid.SampledFrom([]string{"rule", "check", "policy", "block", "authorizer"}).Draw(t, "entry")
@@ -535,7 +543,7 @@ func mustErrorText(t *rapid.T) (gen.TextCase, string) {
 	default:
 		text = "ok(1); allow if " + body + "; deny if true;"
 	}
-	return gen.TextCase{Entry: entry, Text: text, Params: map[string]m.Term{"present": m.Int(1), "pvar": m.Var("x")}}, why
+	return gen.TextCase{Entry: entry, Text: text, Params: map[string]m.Term{"present": m.Int(1), "pvar": m.Var("x"), "pnil": m.Int(0)}}, why
 }
 
 // corrupt applies token-level corruptions to a grammatical text.
